@@ -130,6 +130,28 @@ fn make_configs(thorough: bool) -> Vec<Config> {
             }
         }
     }
+    // three banks with a degenerate middle one: a zero-size filled bank, or a bank without output, between two
+    // banks whose windows are adjacent or overlapping; all definition orders
+    {
+        for fill_a in [false, true] {
+            let a = BankSrc { name: "a".into(), bits: Some(8), addr: Some(0), size: Some(2), outp: Some(0), fill: fill_a, labelalign: None };
+            for mid in 0..2 {
+                let m = if mid == 0 {
+                    BankSrc { name: "m".into(), bits: Some(8), addr: Some(0), size: Some(0), outp: Some(16), fill: true, labelalign: None }
+                } else {
+                    BankSrc { name: "m".into(), bits: Some(8), addr: Some(0x100), size: Some(2), outp: None, fill: false, labelalign: None }
+                };
+                for c_out in [16usize, 8] {
+                    for fill_c in [false, true] {
+                        let c = BankSrc { name: "c".into(), bits: Some(8), addr: Some(4), size: Some(1), outp: Some(c_out), fill: fill_c, labelalign: None };
+                        for order in permutations(3) {
+                            out.push(Config { banks: vec![a.clone(), m.clone(), c.clone()], order });
+                        }
+                    }
+                }
+            }
+        }
+    }
     if thorough {
         // three banks: c after b (adjacent or overlapping), all permutations of definition order
         let a = BankSrc { name: "a".into(), bits: Some(8), addr: Some(0), size: Some(2), outp: Some(0), fill: false, labelalign: None };
